@@ -10,6 +10,8 @@
   MAP-PURE  no map implementation can reach the pseudo-random generator (other than through representation blinding)
             nor writes a file-scope or function-static variable: the point is a function of the input bytes alone
   MAP-DEF   (c13_def.py) no coordinate (component) of the output point is read before the map body assigned it
+  INV-GUARD (c13_def.py) an element inverted in a map body was tested for zero (branch or masked replacement) since computed
+  RHS-SHAPE (c13_def.py) Horner evaluations of the curve polynomial multiply by the x they squared
   MAP-HIST  (c13_def.py) the ->X_map_* constants of the context are not accumulated across curve selections
 """
 import re
@@ -354,8 +356,8 @@ def rule_map_pure(ctx, prog, chk):
 def analyse(ctx, prog, chk):
     chk.used_program(prog)
     from . import c13_def
-    nd, nh, nrs = c13_def.analyse(ctx, prog, chk)
-    return {"maps": rule_map_cof(ctx, prog, chk), "cof": rule_cof_shape(ctx, prog, chk), "pure": rule_map_pure(ctx, prog, chk), "def": nd, "hist": nh, "rhs": nrs}
+    nd, nh, nrs, nig = c13_def.analyse(ctx, prog, chk)
+    return {"maps": rule_map_cof(ctx, prog, chk), "cof": rule_cof_shape(ctx, prog, chk), "pure": rule_map_pure(ctx, prog, chk), "def": nd, "hist": nh, "rhs": nrs, "inv": nig}
 
 
 def selfcheck(ctx, prog, chk):
@@ -368,6 +370,7 @@ def run(ctx, chk):
     chk.floor("COF-ID", "cofactor routines and their multiplications", c["cof"], 6)
     chk.floor("MAP-PURE", "map implementations and wrappers", c["pure"], 12)
     chk.floor("MAP-DEF", "map implementations and wrappers", c["def"], 12)
+    chk.floor("INV-GUARD", "inversions in map bodies", c["inv"], 8)
     chk.floor("RHS-SHAPE", "Horner evaluations of the curve polynomial", c["rhs"], 2)
     chk.floor("MAP-HIST", "self-updates of map-related context fields", c["hist"], 2)
     for cfg in ("P255", "P381"):
